@@ -69,10 +69,11 @@ Section Reduction.
   Notation hon := (honestb P).
 
   (* in a lockstep state the block stores are exactly at n: a stored block n would be certified *)
-  Lemma lockstep_height s V n : preach P s -> lockstep P pay s V n ->
+  Lemma lock_height s V n : preach P s -> p_first P <= n -> lock P s V n ->
+    (forall q, ProtocolRefinesStep.gq (pcfg P 0) hon (g_soup s) q -> hnum (cprop (qmsg q)) < n) ->
     forall k, hon k = true -> r_store_next (n_live (g_node s k)) = n.
   Proof.
-    intros Hr (Hfn & Hlock & [HT0 _] & _) k Hk. destruct (Hlock k Hk) as (_ & _ & _ & Hge).
+    intros Hr Hfn Hlock HT0 k Hk. destruct (Hlock k Hk) as (_ & _ & _ & Hge).
     destruct (Z_le_gt_dec (r_store_next (n_live (g_node s k))) n) as [Hle|Hgt]; [lia|]. exfalso.
     pose proof (ProtocolRefinesMain.store_next_is_queue_end P HP s k Hr Hk) as Hsn.
     set (L := length (ProtocolRefinesMain.queued_numbers s k)) in *.
@@ -87,4 +88,10 @@ Section Reduction.
     destruct (ProtocolRefinesInv.gi_qlog _ _ _ G k' m h Hq) as (q & Hgq & Hm & _).
     pose proof (HT0 q Hgq) as Hlt. rewrite Hm, Em, Hnth in Hlt. unfold i in Hlt. lia.
   Qed.
+  Lemma lockstep_height s V n : preach P s -> lockstep P pay s V n ->
+    forall k, hon k = true -> r_store_next (n_live (g_node s k)) = n.
+  Proof. intros Hr (Hfn & Hlock & [HT0 _] & _). exact (lock_height s V n Hr Hfn Hlock HT0). Qed.
+  Lemma wlockstep_height s V n : preach P s -> wlockstep P pay s V n ->
+    forall k, hon k = true -> r_store_next (n_live (g_node s k)) = n.
+  Proof. intros Hr (Hfn & Hlock & [HT0 _] & _). exact (lock_height s V n Hr Hfn Hlock HT0). Qed.
 End Reduction.
